@@ -27,19 +27,31 @@ pub struct Call {
     pub name: &'static str,
     pub src: &'static str,
     pub cfg: Config,
+    /// `Some(path)`: the include variant `create_shader_module(src, path, ..)`
+    pub include: Option<&'static str>,
 }
+
+impl Call {
+    fn run(&self) -> Outcome {
+        generate_with(self.src, self.include, self.cfg.options())
+    }
+}
+
+/// include path used by the include-variant call; the seed sweep runs some children in a directory where it exists
+pub const INCLUDE_PATH: &str = "shaders/shader.wgsl";
 
 pub fn alphabet() -> Vec<Call> {
     let full = Config { bytemuck_vertex: true, encase: true, serde: true, repr: Repr::Glam, ..Config::default() };
     vec![
-        Call { name: "A", src: SHADER_A, cfg: full },
-        Call { name: "B", src: SHADER_B, cfg: Config { bytemuck_host: true, ..Config::default() } },
-        Call { name: "parse-error", src: SHADER_PARSE_ERROR, cfg: Config::default() },
-        Call { name: "non-consecutive", src: SHADER_NONCONSECUTIVE, cfg: Config { validate: Validate::All, ..Config::default() } },
-        Call { name: "panics", src: SHADER_PANICS, cfg: Config::default() },
-        Call { name: "A-rustfmt", src: SHADER_A, cfg: Config { rustfmt: true, ..full } },
-        Call { name: "types", src: SHADER_TYPES, cfg: Config { bytemuck_host: true, encase: true, repr: Repr::Nalgebra, ..Config::default() } },
-        Call { name: "multi", src: SHADER_MULTI, cfg: full },
+        Call { name: "A", src: SHADER_A, cfg: full, include: None },
+        Call { name: "B", src: SHADER_B, cfg: Config { bytemuck_host: true, ..Config::default() }, include: None },
+        Call { name: "parse-error", src: SHADER_PARSE_ERROR, cfg: Config::default(), include: None },
+        Call { name: "non-consecutive", src: SHADER_NONCONSECUTIVE, cfg: Config { validate: Validate::All, ..Config::default() }, include: None },
+        Call { name: "panics", src: SHADER_PANICS, cfg: Config::default(), include: None },
+        Call { name: "A-rustfmt", src: SHADER_A, cfg: Config { rustfmt: true, ..full }, include: None },
+        Call { name: "types", src: SHADER_TYPES, cfg: Config { bytemuck_host: true, encase: true, repr: Repr::Nalgebra, ..Config::default() }, include: None },
+        Call { name: "multi", src: SHADER_MULTI, cfg: full, include: None },
+        Call { name: "A-include", src: SHADER_A, cfg: full, include: Some(INCLUDE_PATH) },
     ]
 }
 
@@ -57,7 +69,7 @@ pub fn history_child(seq: &str) -> i32 {
     let mut out = vec![];
     for i in seq.split(',').filter(|s| !s.is_empty()) {
         let c = &a[i.parse::<usize>().unwrap()];
-        out.push(outcome_digest(&generate(c.src, &c.cfg)));
+        out.push(outcome_digest(&c.run()));
     }
     // replica of a HashSet over type handles: shows which iteration orders this process' hash keys realise
     let m = naga::front::wgsl::parse_str(SHADER_TYPES).unwrap();
@@ -209,12 +221,13 @@ pub fn run_schedule(programs: &[Vec<usize>], prefix: &[usize], alpha: &[Call]) -
     for (i, prog) in programs.iter().enumerate() {
         let sched = sched.clone();
         let calls: Vec<Call> = prog.iter().map(|k| alpha[*k].clone()).collect();
+        let _ = &calls;
         handles.push(std::thread::spawn(move || {
             TID.with(|t| t.set(Some(i)));
             sched.start(i);
             let mut out = vec![];
             for c in &calls {
-                out.push(outcome_digest(&generate(c.src, &c.cfg)));
+                out.push(outcome_digest(&c.run()));
             }
             TID.with(|t| t.set(None));
             sched.finish(i);
@@ -371,7 +384,7 @@ pub fn run(tier: &str) -> i32 {
             Err(e) => machinery(&format!("C18 reference run failed: {e}")),
         }
     }
-    for (i, want) in [(0usize, "ok:"), (1, "ok:"), (2, "err:ParseError"), (3, "err:NonConsecutiveBindGroups"), (4, "panic:"), (5, "ok:"), (6, "ok:"), (7, "ok:")] {
+    for (i, want) in [(0usize, "ok:"), (1, "ok:"), (2, "err:ParseError"), (3, "err:NonConsecutiveBindGroups"), (4, "panic:"), (5, "ok:"), (6, "ok:"), (7, "ok:"), (8, "ok:")] {
         if !reference[&i].starts_with(want) {
             machinery(&format!("C18 alphabet input {} does not behave as designed: {}", alpha[i].name, reference[&i]));
         }
@@ -492,12 +505,21 @@ pub fn run(tier: &str) -> i32 {
         Some(lib) => {
             let empty_dir = root().join("target").join("c18-empty-cwd");
             let _ = std::fs::create_dir_all(&empty_dir);
+            // a working directory in which the include path of the include-variant call exists
+            let file_dir = root().join("target").join("c18-cwd-with-include");
+            let _ = std::fs::create_dir_all(file_dir.join("shaders"));
+            let _ = std::fs::write(file_dir.join(INCLUDE_PATH), SHADER_A);
             let seed_list: Vec<u64> = (0..seeds).collect();
-            let seq = "0,1,6,5,7,7,7";
+            let seq = "0,1,6,5,7,7,7,8";
             let res = par_map(&seed_list, |s| {
                 let seed = base + s;
                 let clear = s % 2 == 1;
-                let cwd = if s % 3 == 0 { Some(std::path::Path::new("/")) } else if s % 3 == 1 { Some(empty_dir.as_path()) } else { None };
+                let cwd = match s % 4 {
+                    0 => Some(std::path::Path::new("/")),
+                    1 => Some(empty_dir.as_path()),
+                    2 => Some(file_dir.as_path()),
+                    _ => None,
+                };
                 let mut env = vec![("LD_PRELOAD", lib.display().to_string()), ("VERIF_HASH_SEED", seed.to_string())];
                 if s % 4 == 2 {
                     // noisy environment
@@ -509,16 +531,16 @@ pub fn run(tier: &str) -> i32 {
             });
             for (s, r) in seed_list.iter().zip(res.iter()) {
                 rep.states += 1;
-                rep.evaluations += 7;
+                rep.evaluations += 8;
                 let v = match r {
                     Ok(v) => v,
                     Err(e) => machinery(&format!("C18 seed child failed: {e}")),
                 };
                 orders.insert(v["set_order"].to_string());
-                for (j, i) in [0usize, 1, 6, 5, 7, 7, 7].iter().enumerate() {
+                for (j, i) in [0usize, 1, 6, 5, 7, 7, 7, 8].iter().enumerate() {
                     let got = v["digests"][j].as_str().unwrap_or("");
                     if got != reference[i] {
-                        rep.violation(format!("process|seed={}|cwd={}|env={}|input={}", base + s, s % 3, if s % 2 == 1 { "cleared" } else if s % 4 == 2 { "noisy" } else { "inherited" }, alpha[*i].name), format!("{} returned {got} in a process with hash seed {}; reference {}", alpha[*i].name, base + s, reference[i]), json!({"wgsl": alpha[*i].src, "config": alpha[*i].cfg.key(), "hash_seed": base + s, "expected": reference[i], "observed": got}));
+                        rep.violation(format!("process|seed={}|cwd={}|env={}|input={}", base + s, s % 4, if s % 2 == 1 { "cleared" } else if s % 4 == 2 { "noisy" } else { "inherited" }, alpha[*i].name), format!("{} returned {got} in a process with hash seed {}; reference {}", alpha[*i].name, base + s, reference[i]), json!({"wgsl": alpha[*i].src, "config": alpha[*i].cfg.key(), "hash_seed": base + s, "expected": reference[i], "observed": got}));
                     }
                 }
             }
@@ -582,7 +604,7 @@ pub fn run(tier: &str) -> i32 {
     rep.traces_validated = rep.evaluations;
     rep.sample(json!({"history": ["A", "B", "A-rustfmt"], "inputs": {"A": SHADER_A, "B": SHADER_B}}));
     rep.sample(json!({"schedule_threads": [["A"], ["B"]], "yield_points": ["gen:parsed", "gen:validated", "gen:groups", "gen:stages", "gen:structs", "gen:consts", "gen:bindgroups", "gen:vertex", "gen:compute", "gen:entries", "gen:overrides", "gen:assembled"]}));
-    rep.rule = format!("(1) all call sequences of length <= {depth} over a 6-input alphabet built to collide (shaders A and B declare the same struct / variable / entry names with different types, stages and groups; a parse error; non-consecutive groups; an input that panics inside generation; A with rustfmt) in one fresh process each, every result compared with the same input alone in a fresh process; (2) real threads running real calls under a controlled scheduler (12 section yield points per call), all schedules within the stated preemption bound per thread program; (3) {seeds} enumerated hash seeds (getrandom interposer) x working directory {{/, empty dir, inherited}} x environment {{inherited, cleared, noisy}}; (4) strace monitor and source audit. Oracle: byte-identical text / same error variant as the isolated reference.");
+    rep.rule = format!("(1) all call sequences of length <= {depth} over a 6-input alphabet built to collide (shaders A and B declare the same struct / variable / entry names with different types, stages and groups; a parse error; non-consecutive groups; an input that panics inside generation; A with rustfmt) in one fresh process each, every result compared with the same input alone in a fresh process; (2) real threads running real calls under a controlled scheduler (12 section yield points per call), all schedules within the stated preemption bound per thread program; (3) {seeds} enumerated hash seeds (getrandom interposer) x working directory {{/, empty dir, a dir where the include path exists, inherited}} x environment {{inherited, cleared, noisy}}; (4) strace monitor and source audit. Oracle: byte-identical text / same error variant as the isolated reference.");
     rep.finish()
 }
 
@@ -638,8 +660,8 @@ pub fn trace_child() -> i32 {
     let _ = std::fs::metadata("/VERIF_WARMUP");
     let _ = generate(a[0].src, &a[0].cfg);
     let _ = std::fs::metadata("/VERIF_MARK_BEGIN");
-    for i in [0usize, 1, 6, 2, 3] {
-        let _ = generate(a[i].src, &a[i].cfg);
+    for i in [0usize, 1, 6, 2, 3, 8] {
+        let _ = a[i].run();
     }
     let _ = std::fs::metadata("/VERIF_MARK_END");
     0
